@@ -1,10 +1,96 @@
+import PdshVerif.Base.Hex
+import PdshVerif.Opt.Wcoll
+import PdshVerif.Opt.WcollSpec
 import Driver.Util
 
-/-! engine stub: filled in by the owner of this engine (see FRAMEWORK.md) -/
-namespace Driver.WcollDrv
+/-! line protocol of the wcoll engine (one case per line, fields separated by blanks, byte strings
+in hex, `~` = absent / empty list)
 
-def main (_args : List String) : IO UInt32 := do
-  IO.eprintln "engine not implemented"
-  return 2
+`pdshmodel wcoll model`:
+   MODE STDIN ENV NARGS ARG... NFILES (PATH R CONTENT)...
+   MODE = F<size> (fgets with a buffer of <size> bytes) or W (whole lines); ARG = one -w optarg
+   answer: STATUS NWARN CREATED EXPRS EXCL OPENED   (STATUS ok|fatal|starved; lists comma separated)
+`pdshmodel wcoll spec`:
+   STDIN ENV NSRC SRC... NFILES (PATH R CONTENT)...     SRC = w:HEX | f:HEX | s
+   answer: STATUS SKIPPED EXPRS                          (STATUS ok|error)
+-/
+namespace Driver.WcollDrv
+open PdshVerif PdshVerif.Opt
+
+abbrev Str := List Char
+
+def hx (s : Str) : String := Hex.encodeChars s
+def hxs (l : List Str) : String := if l.isEmpty then "~" else ",".intercalate (l.map hx)
+def unhx (s : String) : Option Str := Hex.decodeToChars s
+def optStr (s : String) : Option (Option Str) := if s = "~" then some none else (unhx s).map some
+
+def parseFiles : Nat → List String → Option (Wcoll.FS × List String)
+  | 0, rest => some ([], rest)
+  | n + 1, p :: r :: c :: rest => do
+    let p ← unhx p
+    let c ← unhx c
+    let (fs, rest') ← parseFiles n rest
+    pure (⟨p, r = "1", c⟩ :: fs, rest')
+  | _, _ => none
+
+def takeN : Nat → List String → Option (List String × List String)
+  | 0, rest => some ([], rest)
+  | n + 1, a :: rest => do let (l, r) ← takeN n rest; pure (a :: l, r)
+  | _, [] => none
+
+def runModel (line : String) : String :=
+  match Driver.words line with
+  | mode :: stdin :: env :: nargs :: rest =>
+    let r : Option String := do
+      let mode : Wcoll.LineMode ←
+        if mode = "W" then some .whole
+        else if mode.startsWith "F" then (mode.drop 1).toString.toNat?.map .fgets else none
+      let stdin ← optStr stdin
+      let env ← optStr env
+      let nargs ← nargs.toNat?
+      let (args, rest) ← takeN nargs rest
+      let args ← args.mapM unhx
+      match rest with
+      | nf :: rest =>
+        let nf ← nf.toNat?
+        let (fs, _) ← parseFiles nf rest
+        let st := Wcoll.assemble mode fs (stdin.getD []) args env
+        let status := if st.starved then "starved" else if st.fatal then "fatal" else "ok"
+        pure s!"{status} {st.nwarn} {if st.created then 1 else 0} {hxs st.exprs} {hxs st.excl} {hxs st.opened.flatten}"
+      | [] => none
+    r.getD "bad-op"
+  | _ => "bad-op"
+
+def parseSrc (s : String) : Option WcollSpec.Source :=
+  if s = "s" then some .stdin
+  else if s.startsWith "w:" then (unhx (s.drop 2).toString).map .word
+  else if s.startsWith "f:" then (unhx (s.drop 2).toString).map .file
+  else none
+
+def runSpec (line : String) : String :=
+  match Driver.words line with
+  | stdin :: env :: nsrc :: rest =>
+    let r : Option String := do
+      let stdin ← optStr stdin
+      let env ← optStr env
+      let nsrc ← nsrc.toNat?
+      let (srcs, rest) ← takeN nsrc rest
+      let srcs ← srcs.mapM parseSrc
+      match rest with
+      | nf :: rest =>
+        let nf ← nf.toNat?
+        let (fs, _) ← parseFiles nf rest
+        let res := WcollSpec.assemble fs (stdin.getD []) srcs env
+        pure s!"{if res.error then "error" else "ok"} {res.skipped} {hxs res.exprs}"
+      | [] => none
+    r.getD "bad-op"
+  | _ => "bad-op"
+
+def main (args : List String) : IO UInt32 := do
+  let stdin ← IO.getStdin
+  match args with
+  | ["model"] => Driver.forLines stdin () (fun _ l => ((), runModel l)); return 0
+  | ["spec"] => Driver.forLines stdin () (fun _ l => ((), runSpec l)); return 0
+  | _ => IO.eprintln "usage: pdshmodel wcoll model|spec"; return 2
 
 end Driver.WcollDrv
